@@ -86,8 +86,94 @@ def origin(v):
     return 'other:%r' % (v,), v
 
 
+def _type_max(v):
+    from .. import ctyperules as ct
+    ti = ct.tinfo(v.ctype) if getattr(v, 'ctype', None) else ('other',)
+    if ti[0] == 'int':
+        return (1 << (ti[1] - (1 if ti[2] else 0))) - 1
+    return None
+
+
+def path_upper_bounds(p):
+    """{term: largest value the guards of path p admit} from relations `form < K` / `form <= K` whose left side is linear in one term"""
+    ub = {}
+    for rop, a, b in pe.relations(p):
+        for x, y, op_ in ((a, b, rop), (b, a, pe._REL_SWAP[rop])):
+            if op_ in ('<', '<=') and isinstance(y, int) and not isinstance(y, bool):
+                f = lin(x)
+                if f is None:
+                    continue
+                terms = [(k, c) for k, c in f.items() if k != 1 and c != 0]
+                if len(terms) == 1 and terms[0][1] > 0:
+                    k, c = terms[0]
+                    bound = (y - f.get(1, 0) - (1 if op_ == '<' else 0)) // c
+                    ub[k] = min(ub.get(k, bound), bound)
+            if op_ == '==' and isinstance(y, int) and not isinstance(y, bool) and is_sym(x):
+                ub[x] = min(ub.get(x, y), y)
+    return ub
+
+
+def max_value(v, ub):
+    """largest value of the non-negative quantity v the path admits (guards, else the range of its type); None when not determined"""
+    f = lin(v)
+    if f is None:
+        return None
+    total = f.get(1, 0)
+    for k, c in f.items():
+        if k == 1 or c == 0:
+            continue
+        if c < 0 or not is_sym(k):
+            return None
+        m = ub.get(k)
+        tm = _type_max(k)
+        if m is None:
+            m = tm
+        elif tm is not None:
+            m = min(m, tm)
+        if m is None:
+            return None
+        total += c * m
+    return total
+
+
+def check_local_buffer_writes(chk, imp, inst, paths):
+    """R14.9: every write an import performs into one of its own fixed-size buffers (a copy with a length, a store at an index) stays
+    inside the buffer for every value the guards of that path admit - the largest admitted length/index is computed from the path's
+    relations (`len < K`, `len + c <= K`, else the range of the operand's type)"""
+    n = 0
+    undecided = []
+    for p in paths:
+        ub = None
+        for name, a, loc in p.events:
+            tgt = None
+            if name in ('extern:memcpy', 'extern:memmove', 'extern:strncpy', 'extern:memset') and len(a) == 3 and isinstance(a[0], Ptr) and \
+                    isinstance(a[0].c, list) and len(a[0].c) >= 16 and isinstance(a[0].k, int):
+                tgt = ('copy of', a[2], len(a[0].c) - a[0].k, len(a[0].c))      # length must be <= remaining capacity
+            elif name in ('store-sym', 'store-sym-index') and is_sym(a[0]) and a[0].op == 'index' and isinstance(a[0].args[0], Ptr) and \
+                    isinstance(a[0].args[0].c, list) and len(a[0].args[0].c) >= 16 and isinstance(a[0].args[0].k, int):
+                tgt = ('store at index', a[0].args[1], len(a[0].args[0].c) - a[0].args[0].k - 1, len(a[0].args[0].c))
+            if tgt is None:
+                continue
+            if ub is None:
+                ub = path_upper_bounds(p)
+            what, qty, limit, cap = tgt
+            m = max_value(qty, ub)
+            n += 1
+            if m is None:
+                undecided.append('%s %r at %s' % (what, qty, loc))
+                continue
+            chk.expect(m <= limit, 'R14.9', '%s:buffer-write@%s' % (inst, (loc or '?').split('/')[-1]),
+                       '%s: %s %r into a %d-byte local buffer at %s: the guards on this path (%s) admit the value %d, the buffer allows at most %d - '
+                       'a write past the end of the buffer' % (imp, what, qty, cap, loc, p.cond_text()[:160] or 'none', m, limit), imp + ':buffer-write', loc)
+    if undecided and not chk.unlisted_violations():
+        raise AnalysisBroken('%s: cannot bound %s' % (imp, '; '.join(undecided[:3])))
+    return n
+
+
 def check_path_imports(chk, tu):
     eps = W.entry_points(tu)
+    n_buf = [0]
+    chk.extra_buffer_writes = n_buf
     for imp, (native, ppos, triples) in sorted(PATH_IMPORTS.items()):
         for gen, f in sorted(eps[imp].items()):
             params = astdb.fn_params(f)[1:]
@@ -129,6 +215,7 @@ def check_path_imports(chk, tu):
             inst = '%s/%s' % (gen, imp)
             site = imp
             n_native = 0
+            n_buf[0] += check_local_buffer_writes(chk, imp, inst, paths)
             for p in paths:
                 calls = [(n[7:], a, l) for n, a, l in p.events if n.startswith('extern:') and n[7:] == native]
                 res_ev = [a for n, a, l in p.events if n == 'resolvePath']
@@ -608,6 +695,7 @@ def run(chk):
     from . import c12
     c12.check_errno_table(chk, tu, W.host_macros(('E', 'SEEK_', 'O_')), rule='R14.8')
     chk.floor('R14.8', 30)
+    chk.floor('R14.9', 4)
     chk.floor('R14.7', 8)
     chk.floor('R14.1', 40)
     chk.floor('R14.2', 8)
